@@ -17,7 +17,7 @@ Definition cfg_of (pr : project) (x : jcall) : config :=
 (* registry key of a client = its dotted package name *)
 Definition dotted (pkg : list str) : str := join [46] pkg.
 Definition call_of (x : jcall) : gen_call :=
-  {| g_client := dotted (j_out x); g_codes := j_codes x; g_force := j_force x |}.
+  {| g_client := dotted (j_out x); g_codes := j_codes x; g_force := j_force x; g_core_given := true |}.
 (* the layout as this call sees it: depth of the core, and whether the core lies in this client's directory *)
 Definition layout_of (pr : project) (x : jcall) : layout :=
   {| core_depth := length (p_core pr);
